@@ -306,6 +306,57 @@ class RestartUnit(Unit):
         return ex
 
     def replay(self, failure):
+        """native: a reader saves its position, stops; the writer goes on and files are removed (retention / externally) -- the saved file itself, older ones, newer ones --;
+        the reader restarts from the head file and must deliver every record that is still on disk and was not delivered before the save, nothing twice"""
+        import itertools, logging, os, shutil, tempfile
+        logging.disable(logging.CRITICAL)
+        from openfilter.filter_runtime.rolllog import RollLog
+        obs = []
+        for n_read, delete in itertools.product((1, 2, 3), ((), ('saved',), ('saved', 'older'), ('older',), ('next',), ('saved', 'next'))):
+            d = tempfile.mkdtemp(prefix='verif_c14r_')
+            try:
+                logs, head = os.path.join(d, 'logs'), os.path.join(d, 'head')
+                os.makedirs(logs)
+                t = 1700000000.0
+                w = RollLog(logs, 'txt', file_size=1, total_size=10 ** 9)          # every record its own file
+                for i in range(4):
+                    w.write(f'rec{i}', timestamp=t + i)
+                r = RollLog(logs, 'txt', rdonly=True, head=head)
+                got = [r.read() for _ in range(n_read)]
+                r.write_head()
+                saved_name = r.tell()[0]
+                r.close()
+                for i in range(4, 7):
+                    w.write(f'rec{i}', timestamp=t + i)
+                files = sorted(os.listdir(logs))
+                k = files.index(os.path.basename(saved_name)) if os.path.basename(saved_name) in files else None
+                gone = set()
+                if k is not None:
+                    if 'saved' in delete:
+                        gone.add(files[k])
+                    if 'older' in delete:
+                        gone.update(files[:k])
+                    if 'next' in delete and k + 1 < len(files):
+                        gone.add(files[k + 1])
+                for f in gone:
+                    os.unlink(os.path.join(logs, f))
+                r2 = RollLog(logs, 'txt', rdonly=True, head=head)
+                after = []
+                for _ in range(12):
+                    x = r2.read()
+                    if x is not None:
+                        after.append(x)
+                on_disk = [open(os.path.join(logs, f)).read().strip() for f in sorted(os.listdir(logs))]
+                want = [x for x in on_disk if x not in got]
+                if after != want:
+                    obs.append(f'{n_read} records delivered and saved, files removed {sorted(delete)}: after the restart delivered {after}, still on disk and not yet delivered {want}')
+            except Exception as e:
+                obs.append(f'{n_read} read, removed {sorted(delete)}: {type(e).__name__}: {e}')
+            finally:
+                shutil.rmtree(d, ignore_errors=True)
+        if obs:
+            return {'confirmed': True, 'inputs': 'save position, stop, writer continues, files removed, restart from the head file', 'observed': obs[:4],
+                    'required': 'no record that is still on disk is skipped, none delivered twice'}
         return WriteHeadUnit().replay(failure)
 
 
